@@ -331,6 +331,205 @@ func genWiring() {
 		okP = check("ListenPacket", "managedPacketConn", "PacketConn", "NewMultiPacketListener")
 		add("managerReturnsOnlyWrappedListeners", okS && okP, where, "ListenStream/ListenPacket return the acquired listener only inside managedStreamListener/managedPacketConn (whose Close takes m.mu first), and build the shared listener with the on-close closure in exactly one place")
 	}
+	// ---- configuration load / reload (C09, C10, C11)
+	{
+		// loadConfig: read, parse, validate, start the new generation, stop the old one, remember the
+		// new stop function — in this order, and nothing of the server is assigned before runConfig succeeded
+		ok := false
+		where := ""
+		if b := bodyOf(cmd, "OutlineServer", "loadConfig"); b != nil {
+			where = pos(b)
+			first := func(fun string) token.Pos {
+				cs := callsOf(b, fun)
+				if len(cs) != 1 {
+					return 0
+				}
+				return cs[0].Pos()
+			}
+			ps := []token.Pos{first("os.ReadFile"), first("readConfig"), first("config.Validate"), first("s.runConfig"), first("s.Stop")}
+			ordered := true
+			for i, p := range ps {
+				if p == 0 || (i > 0 && ps[i-1] >= p) {
+					ordered = false
+				}
+			}
+			var assigns []token.Pos
+			ast.Inspect(b, func(n ast.Node) bool {
+				if as, ok := n.(*ast.AssignStmt); ok {
+					for _, l := range as.Lhs {
+						if strings.HasPrefix(exprString(l), "s.") {
+							assigns = append(assigns, as.Pos())
+							if exprString(l) != "s.stopConfig" || exprString(as.Rhs[0]) != "stopConfig" {
+								ordered = false
+							}
+						}
+					}
+				}
+				return true
+			})
+			ok = ordered && len(assigns) == 1 && assigns[0] > ps[4]
+			// every failing return comes before s.Stop
+			ast.Inspect(b, func(n ast.Node) bool {
+				if r, isRet := n.(*ast.ReturnStmt); isRet && len(r.Results) == 1 && exprString(r.Results[0]) != "nil" && r.Pos() > ps[4] {
+					ok = false
+				}
+				return true
+			})
+		}
+		add("loadConfigStages", ok, where, "loadConfig: os.ReadFile, readConfig, config.Validate, s.runConfig, s.Stop once each in this order; the only assignment to the server is s.stopConfig = stopConfig after s.Stop; every failing return precedes s.Stop")
+	}
+	{
+		// runConfig: every listener is taken through the generation's listenerSet; a failed start closes the set
+		ok, ok2 := false, false
+		where := ""
+		if b := bodyOf(cmd, "OutlineServer", "runConfig"); b != nil {
+			where = pos(b)
+			direct := 0
+			ast.Inspect(b, func(n ast.Node) bool {
+				if c, isCall := n.(*ast.CallExpr); isCall {
+					f := exprString(c.Fun)
+					if (strings.HasSuffix(f, ".ListenStream") || strings.HasSuffix(f, ".ListenPacket")) && !strings.HasPrefix(f, "lnSet.") {
+						direct++
+					}
+				}
+				return true
+			})
+			ok = direct == 0 && len(callsOf(b, "lnSet.ListenStream")) == 2 && len(callsOf(b, "lnSet.ListenPacket")) == 2
+			ast.Inspect(b, func(n ast.Node) bool {
+				if is, isIf := n.(*ast.IfStmt); isIf && exprString(is.Cond) == "startErr!=nil" {
+					closes := len(callsOf(is.Body, "lnSet.Close")) == 1
+					sends, returns := false, false
+					for _, st := range is.Body.List {
+						if ss, isSend := st.(*ast.SendStmt); isSend && exprString(ss.Chan) == "startErrCh" && exprString(ss.Value) == "startErr" {
+							sends = true
+						}
+						if _, isRet := st.(*ast.ReturnStmt); isRet {
+							returns = true
+						}
+					}
+					ok2 = closes && sends && returns
+				}
+				return true
+			})
+		}
+		add("generationListenersInOneSet", ok, where, "runConfig takes every listener through lnSet.ListenStream / lnSet.ListenPacket (two call sites each: legacy ports, services) and never from the manager directly")
+		add("failedStartClosesItsSet", ok2, where, "runConfig: `if startErr != nil` closes lnSet, reports startErr and returns")
+	}
+	{
+		// Stop closes listeners only; the context the handlers get governs nothing but the dial
+		ok := false
+		where := ""
+		if b := bodyOf(cmd, "listenerSet", "Close"); b != nil {
+			where = pos(b)
+			ok = true
+			ast.Inspect(b, func(n ast.Node) bool {
+				if c, isCall := n.(*ast.CallExpr); isCall {
+					switch exprString(c.Fun) {
+					case "ls.listenersMu.Lock", "ls.listenersMu.Unlock", "listenerCloseFunc", "fmt.Errorf":
+					default:
+						ok = false
+					}
+				}
+				return true
+			})
+			ok = ok && len(callsOf(b, "listenerCloseFunc")) == 1
+		}
+		if b := bodyOf(cmd, "OutlineServer", "runConfig"); b != nil {
+			n := 0
+			ast.Inspect(b, func(m ast.Node) bool {
+				if ss, isSend := m.(*ast.SendStmt); isSend && exprString(ss.Chan) == "stopErrCh" {
+					n++
+					if exprString(ss.Value) != "lnSet.Close()" {
+						ok = false
+					}
+				}
+				return true
+			})
+			ok = ok && n == 1
+		} else {
+			ok = false
+		}
+		add("stopClosesListenersOnly", ok, where, "the stop function of a generation does lnSet.Close() and nothing else; listenerSet.Close only calls the recorded listener close functions")
+		ctxOK := true
+		uses := 0
+		for _, fn := range []struct {
+			recv, name string
+			allowed    []string
+		}{
+			{"streamHandler", "Handle", []string{"h.handleConnection"}},
+			{"streamHandler", "handleConnection", []string{"proxyConnection", "h.dialer.DialStream"}},
+			{"", "proxyConnection", []string{"dialer.DialStream"}}} {
+			fd := svc.findFunc(fn.recv, fn.name)
+			if fd == nil {
+				ctxOK = false
+				continue
+			}
+			fine := map[*ast.Ident]bool{}
+			for _, a := range fn.allowed {
+				for _, c := range callsOf(fd.Body, a) {
+					for _, arg := range c.Args {
+						if id, isID := arg.(*ast.Ident); isID && id.Name == "ctx" {
+							fine[id] = true
+							uses++
+						}
+					}
+				}
+			}
+			ast.Inspect(fd.Body, func(n ast.Node) bool {
+				switch x := n.(type) {
+				case *ast.FieldList: // parameter names of a closure
+					for _, f := range x.List {
+						for _, id := range f.Names {
+							fine[id] = true
+						}
+					}
+				case *ast.SelectorExpr: // ctx.Deadline(): a read; a cancelled context has no deadline
+					if id, isID := x.X.(*ast.Ident); isID && id.Name == "ctx" && x.Sel.Name == "Deadline" {
+						fine[id] = true
+					}
+				}
+				return true
+			})
+			ast.Inspect(fd.Body, func(n ast.Node) bool {
+				if id, isID := n.(*ast.Ident); isID && id.Name == "ctx" && !fine[id] {
+					ctxOK = false
+				}
+				return true
+			})
+		}
+		add("handlerContextGovernsOnlyTheDial", ctxOK && uses == 4, where, "the context StreamServe cancels when its listener closes is only passed Handle -> handleConnection -> proxyConnection -> dialer.DialStream: closing a listener cannot end a connection that is already relaying")
+	}
+	{
+		// each service's listeners are served by a ShadowsocksService built from that service's keys
+		ok := false
+		where := ""
+		if b := bodyOf(cmd, "OutlineServer", "runConfig"); b != nil {
+			ast.Inspect(b, func(n ast.Node) bool {
+				rs, isRange := n.(*ast.RangeStmt)
+				if !isRange || exprString(rs.X) != "config.Services" {
+					return true
+				}
+				where = pos(rs)
+				newList := callsOf(rs.Body, "newCipherListFromConfig")
+				with := callsOf(rs.Body, "service.WithCiphers")
+				okArgs := len(newList) == 1 && len(newList[0].Args) == 1 && exprString(newList[0].Args[0]) == exprString(rs.Value) &&
+					len(with) == 1 && len(with[0].Args) == 1 && exprString(with[0].Args[0]) == "ciphers"
+				serves := 0
+				ast.Inspect(rs.Body, func(m ast.Node) bool {
+					if g, isGo := m.(*ast.GoStmt); isGo {
+						s := exprString(g.Call)
+						if strings.Contains(s, "ssService.HandleStream") || strings.Contains(s, "ssService.HandlePacket") {
+							serves++
+						}
+					}
+					return true
+				})
+				ok = okArgs && serves == 2
+				return false
+			})
+		}
+		add("serviceListenersServeOwnKeys", ok, where, "in runConfig's loop over config.Services the cipher list comes from newCipherListFromConfig(that service) and every listener of the loop body is served by the ShadowsocksService built WithCiphers(it)")
+	}
 	l := newLean("Wiring.lean")
 	l.p("namespace OutlineModel.Gen.Wiring")
 	for _, f := range facts {
